@@ -153,6 +153,7 @@ Definition used_where_items (gens used: list generic) : list (list tt) :=
   filter (fun item => forallb (fun w => negb (mem_str w declared) || mem_str w usedn) (tt_words item))
          (map (fun x => full_with_const x [] [] true) (filter is_where gens)).
 
+Definition target_lifetime {A} (unskipped_fields: list A) : list (list tt) := match unskipped_fields with [] => [] | _ => [lt_target] end.
 (* ---- derive_struct_diff_struct ---- *)
 Definition has_setter (all: bool) (f: field) : bool :=
   match attrs_setter (f_attrs f) with (local, skip_setter, _) => negb skip_setter && (all || local) end.
@@ -163,14 +164,16 @@ Definition struct_headers (c: hcfg) (setters_feature: bool) (s: strukt) : list (
   let fields := filter (fun f => negb (attrs_skip (f_attrs f))) (s_fields s) in
   let used := used_generics gens (map f_ty fields) in
   let owned_impl := angle (map ident_only (no_where used)) in
-  let ref_impl := angle (lt_target :: map ident_only (no_where used)) in
-  let ref_def := angle (lt_target :: map ident_with_const (no_where used)) in
+  (* the borrowed diff enum declares '__diff_target only when there is an unskipped field to borrow from (repair of D5) *)
+  let tl := target_lifetime fields in
+  let ref_impl := angle (tl ++ map ident_only (no_where used)) in
+  let ref_def := angle (tl ++ map ident_with_const (no_where used)) in
   [ allow_attr ++ attr_tt "derive" (sep_comma (owned_derives c)) ++ serde_bound c used ++
       [TId "pub"; TId "enum"; TId ename] ++ angle (map ident_with_const (no_where used)) ++ TId "where" ::
       sep_comma (map (fun x => full_with_const x (BOUNDS c) [] true) (filter (fun x => has_where_bounds x false true) (no_where_const used)));
     allow_attr ++ attr_tt "derive" (sep_comma (ref_derives c)) ++
       [TId "pub"; TId "enum"; TId (ename ++ "Ref")] ++ ref_def ++ TId "where" ::
-      sep_comma (map (fun x => full_with_const x (REF_BOUNDS c) [lt_target] true) (filter (fun x => has_where_bounds x true true) (no_where_const used)) ++ [self_outlives]);
+      sep_comma (map (fun x => full_with_const x (REF_BOUNDS c) [lt_target] true) (filter (fun x => has_where_bounds x true true) (no_where_const used)) ++ map (fun _ => self_outlives) tl);
     TId "impl" :: ref_def ++ [TId "Into"; TP PLt; TId ename] ++ owned_impl ++ [TP PGt; TId "for"; TId (ename ++ "Ref")] ++ ref_impl ++ TId "where" ::
       sep_comma (map (fun x => full_with_const x (BOUNDS c) [lt_target] true) (filter (fun x => has_where_bounds x true true) (no_where_const used)) ++ used_where_items gens used);
     TId "impl" :: angle (map ident_with_const (no_where gens)) ++ [TId "StructDiff"; TId "for"; TId sname] ++ angle (map ident_only (no_where gens)) ++ TId "where" ::
